@@ -75,6 +75,29 @@ func snapshotCounts(s *Stats) map[string]int {
 	return m
 }
 
+// every kind once, some of them several times over
+func kindsWeighted(extra map[Kind]int) []Kind {
+	var out []Kind
+	for k := Kind(0); k < nKinds; k++ {
+		if k == KKey {
+			continue
+		}
+		out = append(out, k)
+		for i := 0; i < extra[k]; i++ {
+			out = append(out, k)
+		}
+	}
+	return out
+}
+
+func init() {
+	// filters on enum columns go through their own predicate path (FilterString with a per-location
+	// cache): the filter profile has several of them per schema
+	p := profiles["filter"]
+	p.Kinds = kindsWeighted(map[Kind]int{KEnum: 4, KBool: 1, KF64I: 1})
+	profiles["filter"] = p
+}
+
 func cmdHist(args []string) {
 	fs := flag.NewFlagSet("hist", flag.ExitOnError)
 	seed := fs.Uint64("seed", 1, "seed")
